@@ -55,10 +55,29 @@ def correspondence(tag, cos, fixed=True, shard=300):
     return sorted(mism), errors
 
 
+def oracle_textfile(case, obs):
+    """from_textfile across stop / start: every complete line of the file is handed on exactly once, in file order, and
+    nothing is handed on while the source is stopped (other than the completion of the cycle in progress)"""
+    out = []
+    sp = case["src"]
+    lines = list(sp["lines"])
+    vals = []
+    for a, o in zip([None] + case["actions"], obs):
+        if a is not None and a[0] == "append":
+            lines.extend(a[1])
+        vals.extend(v for (t, v) in o["deliv"])
+        if vals != lines[:len(vals)]:
+            out.append(("C18", "C18/textfile/order-or-dup", "delivered %r, the file holds %r" % (vals, lines)))
+            return out
+    return out
+
+
 def oracle(case, obs):
     """the property clauses on the real trace"""
     out = []
     sp = case["src"]
+    if sp["k"] == "textfile":
+        return oracle_textfile(case, obs)
     deliv = [(t, v, step) for step, o in enumerate(obs) for (t, v) in o["deliv"]]
     vals = [v for _, v, _ in deliv]
     if sp["k"] == "periodic":
@@ -148,6 +167,32 @@ def gen(rng, tier):
     return c
 
 
+def gen_textfile(rng, tier):
+    """from_textfile with a backlog of lines, a controlled (backpressuring) or synchronous consumer, stop / start placed
+    anywhere (also while a line of a backlog is held up by the consumer), lines appended while stopped or running"""
+    v = [100]
+
+    def fresh(n):
+        r = list(range(v[0], v[0] + n))
+        v[0] += n
+        return r
+    sp = {"k": "textfile", "lines": fresh(rng.choice([0, 1, 2, 3, 3, 4])), "poll": rng.choice([1, 2, 3])}
+    acts = [["start"]]
+    for _ in range(rng.randint(2, 12 if tier == "quick" else 24)):
+        u = rng.random()
+        if u < 0.3:
+            acts.append(["ack"])
+        elif u < 0.45:
+            acts.append(["stop"])
+        elif u < 0.6:
+            acts.append(["start"])
+        elif u < 0.8:
+            acts.append(["adv", rng.choice([1, 2, 3, 5])])
+        else:
+            acts.append(["append", fresh(rng.choice([1, 1, 2, 3]))])
+    return {"src": sp, "sink": rng.choice(["ctl", "ctl", "sync"]), "actions": acts}
+
+
 def exhaustive(tier):
     """every start/stop placement around the suspension points of short runs"""
     cases = []
@@ -189,6 +234,7 @@ def run(prop, tier, seed, replay=None):
         cases = [json.load(open(replay))["replay"]["case"]]
     else:
         cases = exhaustive(tier) + [gen(rng, tier) for _ in range(400 if tier == "quick" else 6000)]
+        cases += [gen_textfile(rng, tier) for _ in range(300 if tier == "quick" else 3000)]
     cos = []
     nontriv = set()
     nfind = 0
@@ -208,7 +254,8 @@ def run(prop, tier, seed, replay=None):
                 out.violation(sig, msg, {"case": c})
                 nfind += 1
             break
-    cos_all = cos          # every history goes through the model correspondence
+    cos_all = cos          # every from_periodic / from_iterable history goes through the model correspondence
+    cos = [(c, o) for (c, o) in cos_all if c["src"]["k"] != "textfile"]      # (from_textfile: oracle only)
     mism, errors = correspondence("C18", cos, fixed=True)
     for p, o in errors:
         out.violation("C18/correspondence-error", "coqc failed: %s" % o[-300:], {"file": p}, no_input=True)
@@ -222,7 +269,7 @@ def run(prop, tier, seed, replay=None):
     if not proof["ok"]:
         out.violation("C18/proof/%s" % proof["failing"], "proof obligation no longer checks: %s" % proof["failing"],
                       {"theorem_or_file": proof["failing"], "log": proof["log"][-2000:]}, no_input=True)
-    cov = {"evaluations": len(cos_all), "oracle_only_cases": 0,
+    cov = {"evaluations": len(cos_all), "oracle_only_cases(from_textfile across stop/start)": len(cos_all) - len(cos),
            "cases_with_back_to_back_calls": sum(1 for (c, o) in cos_all if any(a[0] == "multi" for a in c["actions"])),
            "cases_with_stop_inside_callback": sum(1 for (c, o) in cos_all if "stop_on" in c), "distinct_nontrivial": len(nontriv),
            "rule": "exhaustive words over start / stop / ack / advance / back-to-back start();stop() of length 5 (quick) or 7 (thorough) over from_periodic and from_iterable with controlled and synchronous sinks; every word of length 3 (5) after a start with a consumer that calls stop() from inside its callback at the 1st or 2nd element (on the source or on the sink node), the restart also as back-to-back stop();start(); every word of length 4 (5) with back-to-back calls that end with start(); plus random longer histories (stop immediately followed by start is favoured, back-to-back calls and reacting consumers mixed in). ALL histories are compared with the Coq model (SMulti, ss_stop_on) inside Coq; non-trivial = at least one delivery",
